@@ -14,6 +14,7 @@ import (
 	stakingtypes "github.com/KiraCore/sekai/x/staking/types"
 	dbm "github.com/cometbft/cometbft-db"
 	abci "github.com/cometbft/cometbft/abci/types"
+	tmcrypto "github.com/cometbft/cometbft/crypto"
 	cryptoenc "github.com/cometbft/cometbft/crypto/encoding"
 	"github.com/cometbft/cometbft/libs/log"
 	tmproto "github.com/cometbft/cometbft/proto/tendermint/types"
@@ -313,3 +314,5 @@ func withCache(ctx sdk.Context, f func(ctx sdk.Context) error) (err error) {
 	}
 	return err
 }
+
+func cryptoPub(u abci.ValidatorUpdate) (tmcrypto.PubKey, error) { return cryptoenc.PubKeyFromProto(u.PubKey) }
